@@ -408,3 +408,107 @@ pub struct ClientSnap {
 pub fn snap_client(c: &NetcodeClient) -> ClientSnap {
     ClientSnap { connected: c.is_connected(), connecting: c.is_connecting(), reason: c.disconnect_reason(), since: c.time_since_last_received_packet(), server_addr: c.server_addr() }
 }
+
+// ---------------------------------------------------------------------------
+// Honest stepping helpers shared by C05 / C10 / C17 / C18
+
+#[derive(Debug, Clone)]
+pub struct StepOut {
+    pub sent: Option<usize>,
+    pub delivered: bool,
+    pub server: usize,
+    pub out: SrvOut,
+    pub reply: Option<usize>,
+    pub reply_delivered: bool,
+}
+
+impl NetWorld {
+    pub fn server_by_addr(&self, a: SocketAddr) -> Option<usize> {
+        self.servers.iter().position(|s| s.addr == a)
+    }
+
+    pub fn client_by_addr(&self, a: SocketAddr) -> Vec<usize> {
+        (0..self.clients.len()).filter(|&i| self.clients[i].addr == a).collect()
+    }
+
+    /// One honest client step: update, optionally deliver to the addressed server, optionally deliver the reply.
+    pub fn honest_step(&mut self, c: usize, dt: Duration, lose_up: bool, lose_down: bool) -> StepOut {
+        let mut so = StepOut { sent: None, delivered: false, server: 0, out: SrvOut::None, reply: None, reply_delivered: false };
+        let Some(did) = self.client_update(c, dt) else { return so };
+        so.sent = Some(did);
+        let d = self.pool[did].clone();
+        let Some(s) = self.server_by_addr(d.to) else { return so };
+        so.server = s;
+        if lose_up {
+            return so;
+        }
+        so.delivered = true;
+        self.pool[did].presented += 1;
+        so.out = self.server_recv(s, d.src, &d.bytes);
+        so.reply = match &so.out {
+            SrvOut::Send { did, .. } | SrvOut::Connected { did, .. } => Some(*did),
+            SrvOut::Disconnected { did, .. } => *did,
+            _ => None,
+        };
+        if let (Some(r), false) = (so.reply, lose_down) {
+            let b = self.pool[r].bytes.clone();
+            self.pool[r].presented += 1;
+            // the transport only hands over datagrams coming from the address the client talks to
+            if self.clients[c].client.server_addr() == self.servers[s].addr {
+                self.client_recv(c, &b);
+                so.reply_delivered = true;
+            }
+        }
+        so
+    }
+
+    /// Server tick: advance the clock, run update_client for every connected id; outputs are returned with
+    /// the datagram (if any) still undelivered.
+    pub fn server_tick(&mut self, s: usize, dt: Duration) -> Vec<SrvOut> {
+        self.server_advance(s, dt);
+        let ids = self.servers[s].server.clients_id();
+        let mut outs = vec![];
+        for id in ids {
+            let o = self.server_update_client(s, id);
+            if o != SrvOut::None {
+                outs.push(o);
+            }
+        }
+        outs
+    }
+
+    /// Deliver a server-emitted datagram to whichever live client sits at its destination address.
+    pub fn deliver_to_clients(&mut self, did: usize) -> Vec<(usize, Option<Vec<u8>>)> {
+        let d = self.pool[did].clone();
+        let mut res = vec![];
+        for c in self.client_by_addr(d.to) {
+            if self.clients[c].client.server_addr() == d.src {
+                self.pool[did].presented += 1;
+                let p = self.client_recv(c, &d.bytes);
+                res.push((c, p));
+            }
+        }
+        res
+    }
+}
+
+/// Decode a datagram with a known key without touching any endpoint (harness-side inspection).
+pub fn peek<'a>(bytes: &'a mut Vec<u8>, protocol: u64, key: &[u8; 32]) -> Option<(u64, NPacket<'a>)> {
+    NPacket::decode(bytes, protocol, Some(key), None).ok()
+}
+
+pub fn peek_challenge(bytes: &[u8], protocol: u64, key: &[u8; 32]) -> Option<(u64, [u8; 300])> {
+    let mut b = bytes.to_vec();
+    match peek(&mut b, protocol, key) {
+        Some((_, NPacket::Challenge { token_sequence, token_data })) => Some((token_sequence, token_data)),
+        _ => None,
+    }
+}
+
+pub fn peek_response(bytes: &[u8], protocol: u64, key: &[u8; 32]) -> Option<(u64, [u8; 300])> {
+    let mut b = bytes.to_vec();
+    match peek(&mut b, protocol, key) {
+        Some((_, NPacket::Response { token_sequence, token_data })) => Some((token_sequence, token_data)),
+        _ => None,
+    }
+}
